@@ -1,5 +1,5 @@
 (* Property C06 - statistics equal their definitions on genotypes and the published estimators. *)
-From Sfs Require Import Index ArrayM Scalar Spectrum Project Stat IndexP ArrayP MargP FoldP StatDefP StatInvP ViewP.
+From Sfs Require Import Index ArrayM Scalar Spectrum Project Create Stat IndexP ArrayP MargP FoldP StatDefP StatInvP ViewP CreateP CreateSpecP CreateRelP.
 
 Close Scope Qc_scope. Close Scope Q_scope. Open Scope nat_scope.
 
@@ -101,6 +101,15 @@ Theorem C06_king_r0_r1_are_genotype_pair_ratios : forall keys,
                (npair keys 0 1 + npair keys 1 0 + qnat 2 * npair keys 1 1 + npair keys 1 2 + npair keys 2 1))%Qc).
 Proof. exact (@king_r0_r1_eq). Qed.
 Print Assumptions C06_king_r0_r1_are_genotype_pair_ratios.
+
+(* the spectrum produced by create IS the histogram of the complete sites' per-population ALT counts (so every statement above about `hist` is a statement about create's output) *)
+Theorem C06_created_spectrum_is_histogram : forall cfg items,
+  cfg_wf cfg -> r_pto cfg = None -> Forall (no_selected_ploidy cfg) items ->
+  exists st, run_items cfg false (init_rstate cfg) items = inl st /\
+             {| adata := scs st; ashape := r_shape cfg |} = hist (r_shape cfg) (complete_keys cfg items) /\
+             keys_ok (r_shape cfg) (complete_keys cfg items).
+Proof. exact (@create_is_hist). Qed.
+Print Assumptions C06_created_spectrum_is_histogram.
 
 (* a_n = sum_{i<n} 1/i, b_n = sum_{i<n} 1/i^2 *)
 Theorem C06_harmonic_numbers : forall n,
